@@ -977,6 +977,8 @@ def _offset_term(e, pt):
                 a = deep_strip(a[1])
             if a[0] == "call" and a[1] == "alloc::string::String::new":
                 ok_ = True
+            elif a[0] == "call" and a[1].endswith("Iterator::next") and any(y[0] == "call" and y[1] == "core::str::<impl str>::chars" for y in walk(a)):
+                ok_ = True      # `String::from(first)`: started from the first character the scan read (From::from is transparent)
             elif a[0] == "call" and (a[1].endswith("from_residual") or a[1].endswith("Try::branch")):
                 continue
             else:
